@@ -101,7 +101,9 @@ where
 
     fn call(&mut self, req: Req) -> Self::Future {
         let start = Instant::now();
-        self.in_flight.fetch_add(1, Ordering::Relaxed);
+        // Counts the call as in flight until the guard is dropped: on completion, but also when
+        // the returned future is dropped (cancellation, never polled) or the inner call panics.
+        let in_flight_guard = InFlightGuard::new(&self.in_flight);
 
         let future = self.inner.call(req);
 
@@ -117,7 +119,6 @@ where
         }
 
         let algorithm = Arc::clone(&self.algorithm);
-        let in_flight = Arc::clone(&self.in_flight);
         let semaphore = Arc::clone(&self.semaphore);
         let current_limit = Arc::clone(&self.current_limit);
 
@@ -127,7 +128,7 @@ where
                 let latency = start.elapsed();
 
                 // Decrement in-flight counter
-                in_flight.fetch_sub(1, Ordering::Relaxed);
+                drop(in_flight_guard);
 
                 match &result {
                     Ok(_) => algorithm.record_success(latency),
@@ -148,6 +149,22 @@ where
                 result.map_err(AdaptiveError::Service)
             }),
         }
+    }
+}
+
+/// Keeps one call counted as in flight; the count is given back when the guard is dropped.
+struct InFlightGuard(Arc<AtomicUsize>);
+
+impl InFlightGuard {
+    fn new(counter: &Arc<AtomicUsize>) -> Self {
+        counter.fetch_add(1, Ordering::Relaxed);
+        Self(Arc::clone(counter))
+    }
+}
+
+impl Drop for InFlightGuard {
+    fn drop(&mut self) {
+        self.0.fetch_sub(1, Ordering::Relaxed);
     }
 }
 
